@@ -215,7 +215,7 @@ def rand_gint(rng, lo=-3, hi=3, complex_p=0.4):
             return complex(re, im)
 
 
-def rand_terms(rng, n, nterms, maxlen, vocab, samesite_p=0.12, repeat_p=0.15, conserving=None):
+def rand_terms(rng, n, nterms, maxlen, vocab, samesite_p=0.12, repeat_p=0.15, conserving=None, diag=("n", "z", "sz", "h", "sn")):
     """Random term list over registers 0..n-1.  conserving in {None, 'U1', 'Z2'} biases towards
     term lists that commute with the symmetry (hopping, number, zz terms)."""
     terms = []
@@ -231,9 +231,9 @@ def rand_terms(rng, n, nterms, maxlen, vocab, samesite_p=0.12, repeat_p=0.15, co
                 ops = [("+", int(i)), ("-", int(j))]
                 if rng.random() < 0.4:
                     k = int(rng.integers(n))
-                    ops.insert(int(rng.integers(3)), (str(rng.choice(["n", "z", "sz", "h", "sn"])), k))
+                    ops.insert(int(rng.integers(3)), (str(rng.choice(list(diag))), k))
             elif kind == 1:
-                ops = [(str(rng.choice(["n", "z", "sz", "h", "sn"])), int(rng.integers(n))) for _ in range(int(rng.integers(1, maxlen + 1)))]
+                ops = [(str(rng.choice(list(diag))), int(rng.integers(n))) for _ in range(int(rng.integers(1, maxlen + 1)))]
             elif kind == 2 and n >= 2:
                 i, j = rng.choice(n, size=2, replace=False)
                 ops = [("-", int(i)), ("+", int(j))]
@@ -254,7 +254,16 @@ def rand_terms(rng, n, nterms, maxlen, vocab, samesite_p=0.12, repeat_p=0.15, co
             # make the number of flipping operators even
             flips = sum(1 for o, _ in ops if o in ("x", "y", "zx", "sx", "sy", "+", "-"))
             if flips % 2:
-                ops.append((str(rng.choice(["x", "y", "+", "-"])), int(rng.integers(n))))
+                free = [r for r in range(n) if r not in {q for _, q in ops}]
+                if free and samesite_p == 0.0:
+                    ops.append((str(rng.choice(["x", "y", "+", "-"])), int(free[int(rng.integers(len(free)))])))
+                elif samesite_p == 0.0:
+                    ops = ops[:-1] if ops[-1][0] in ("x", "y", "zx", "sx", "sy", "+", "-") else ops + []
+                    flips = sum(1 for o, _ in ops if o in ("x", "y", "zx", "sx", "sy", "+", "-"))
+                    if flips % 2:
+                        ops = [(o, q) for o, q in ops if o not in ("x", "y", "zx", "sx", "sy", "+", "-")]
+                else:
+                    ops.append((str(rng.choice(["x", "y", "+", "-"])), int(rng.integers(n))))
         terms.append((rand_gint(rng), ops))
     return terms
 
@@ -317,3 +326,40 @@ def term_keeps_charge(ops, sym, regsA):
         return (mixed == 0 and sum(r in A for r in up) == sum(r in A for r in dn)
                 and sum(r not in A for r in up) == sum(r not in A for r in dn))
     return True
+
+
+def bug_class(terms, fermi):
+    """Does some register of some term (after inserting Jordan-Wigner strings when fermi) carry a product
+    of operators whose scalar relative to the named operator it reduces to is not +-1?  This is the input
+    class of the known defect of simplify_single_site_ops; the float tier (which has no exact oracle to
+    attribute a failure) stays outside of it, the exact tier covers it."""
+    for _, ops in terms:
+        full = []
+        if fermi and any(o in LADDER for o, _ in ops):
+            for o, r in ops:
+                if o in LADDER:
+                    full += [("z", k) for k in range(r)]
+                full.append((o, r))
+        else:
+            full = list(ops)
+        for reg in {r for _, r in full}:
+            names = [o for o, r in full if r == reg]
+            if len(names) < 2:
+                continue
+            P = np.eye(2, dtype=complex)
+            for o in names:
+                P = P @ TAB[o]
+            flat = P.reshape(-1)
+            if not np.any(np.abs(flat) > 1e-12):
+                continue
+            pc = flat[int(np.argmax(np.abs(flat) > 0.999999 * np.abs(flat).max()))]
+            s2 = None
+            for o in OPS:
+                R = TAB[o].reshape(-1)
+                rc = R[int(np.argmax(np.abs(R) > 0.999999 * np.abs(R).max()))]
+                if np.allclose(flat / pc, R / rc):
+                    s2 = (pc / rc) ** 2
+                    break
+            if s2 is None or abs(s2 - 1) > 1e-9:
+                return True
+    return False
